@@ -661,6 +661,15 @@ func (tr *Trans) checkInvariant(li *loopInfo, st *State, cond Term, phis map[*ss
 		tr.e.oblige(&Obl{Name: fmt.Sprintf("%s#loop%d.%s:%s", tr.label, li.ordinal, what, inv.Label), Kind: "invariant-" + what,
 			Props: inv.Props, Cond: cond, Goal: t, Pos: inv.Where, Fn: tr.label, Extra: extra})
 	}
+	if what == "preserved" {
+		for _, it := range li.spec.Iters {
+			env := tr.loopEnv(li, st, phis)
+			env.reach = cond
+			t, extra := tr.goalClause(env, it.AST)
+			tr.e.oblige(&Obl{Name: fmt.Sprintf("%s#loop%d.iteration:%s", tr.label, li.ordinal, it.Label), Kind: "invariant-preserved",
+				Props: it.Props, Cond: cond, Goal: t, Pos: it.Where, Fn: tr.label, Extra: extra})
+		}
+	}
 	if li.spec.Decreases != nil && what == "preserved" && li.decr0.ok() {
 		env := tr.loopEnv(li, st, phis)
 		env.reach = cond
